@@ -230,8 +230,10 @@ def check_table(ctx: Ctx, rep: Report, err_base: ClassInfo, construct_fn: FuncIn
     site = f"{err_base.module.path} (ErrorResponse subclasses)"
     for status, want in sorted(rfc.ERROR_CLASS_BY_STATUS.items()):
         got = [c.name for c in by_status.get(status, [])]
+        # the documented name may be an alias of a renamed class: compare the class the name resolves to
+        documented = ctx.r.resolve_class(err_base.module, ast.Name(want, ast.Load()))
         rep.check(
-            got == [want],
+            got == [want] or (documented is not None and by_status.get(status, []) == [documented]),
             "C08-R2",
             site,
             f"error-status {status} ({rfc.ERROR_STATUS[status]}) maps to exactly the direct subclass {want}",
